@@ -1,8 +1,9 @@
 (* C33 — version comparison is a consistent Debian-style ordering.
    This file holds the property theorems only: statement, `exact <lemma>`, Print Assumptions.
    Model: models/Version.v (strutil/version.go function by function; chOrder regenerated into gen/ChOrder.v). *)
-From Coq Require Import List NArith ZArith Bool.
-Require Import V.lib.Bytes V.models.Version V.proofs.VersionProofs.
+From Coq Require Import List NArith ZArith Bool String.
+Open Scope string_scope.
+Require Import V.lib.Bytes V.models.Version V.proofs.VersionProofs V.proofs.VersionOrder.
 
 (* versions with an epoch ("<digits>:" prefix) are rejected, and nothing else is *)
 Theorem C33_epoch_rejected : forall a b : bytes,
@@ -38,16 +39,38 @@ Theorem C33_result_range : forall (a b : bytes) (r : Z), version_compare a b = R
 Proof. exact version_compare_tri. Qed.
 Print Assumptions C33_result_range.
 
-(* transitive — PARTIAL. The full statement is
-     forall a b c, le a b -> le b c -> le a c   (and strictly when either step is strict), le x y := version_compare x y = Res r, r <= 0,
-   for all byte strings without NUL. What is proved here is that statement on the complete finite domain of all strings of
-   length <= 2 over the bytes `0 a . ~ -` (by computation in the kernel's VM, lifted with forallb_forall); beyond that
-   domain transitivity is only monitored on the implementation's observed results (driver `triples`). Missing: the
-   order-embedding of fragments into token keys that would give the unbounded statement. *)
-Theorem C33_transitive_partial : forall a b c : bytes,
+(* transitive, for ALL byte strings without NUL (0 < byte < 256; NUL is the padding byte of cmpString): if a <= b and
+   b <= c then a <= c, strictly when either step is strict; and symmetrically for >=. `st x y z` is exactly that
+   statement about the three results (proofs/VersionOrder.v). No bound on the lengths: the proof is by induction over the
+   loop of compareSubversion, using the regenerated chOrder table only through three facts checked on all 256 bytes. *)
+Theorem C33_transitive : forall (a b c : bytes) (x y : Z),
+  ok a = true -> ok b = true -> ok c = true ->
+  version_compare a b = Res x -> version_compare b c = Res y ->
+  exists z, version_compare a c = Res z /\
+    ((x <= 0 -> y <= 0 -> z <= 0 /\ (x < 0 \/ y < 0 -> z < 0)) /\
+     (x >= 0 -> y >= 0 -> z >= 0 /\ (x > 0 \/ y > 0 -> z > 0)))%Z.
+Proof. exact version_compare_trans. Qed.
+Print Assumptions C33_transitive.
+
+(* versions that compare equal are interchangeable: they compare alike against every third version *)
+Theorem C33_equal_is_congruence : forall (a b c : bytes) (y : Z),
+  ok a = true -> ok b = true -> ok c = true ->
+  version_compare a b = Res 0%Z -> version_compare b c = Res y -> version_compare a c = Res y.
+Proof. exact version_eq_congruence. Qed.
+Print Assumptions C33_equal_is_congruence.
+
+(* non-vacuity: a strict chain 1.0~rc1 < 1.0 < 1.0-1 meets the hypotheses *)
+Example C33_transitive_nonvacuous :
+  ok (bs "1.0~rc1") = true /\ ok (bs "1.0") = true /\ ok (bs "1.0-1") = true /\
+  version_compare (bs "1.0~rc1") (bs "1.0") = Res (-1)%Z /\ version_compare (bs "1.0") (bs "1.0-1") = Res (-1)%Z.
+Proof. vm_compute. repeat split; reflexivity. Qed.
+
+(* the same statement checked by computation on a complete finite domain that also contains NUL-free short strings
+   (kept as a regression check of the model against the table: it re-runs whenever gen/ChOrder.v changes) *)
+Theorem C33_transitive_small_domain : forall a b c : bytes,
   In a small_domain -> In b small_domain -> In c small_domain -> trans_ok a b c = true.
 Proof. exact transitive_small_domain. Qed.
-Print Assumptions C33_transitive_partial.
+Print Assumptions C33_transitive_small_domain.
 
 (* agreement with Debian ordering — PARTIAL. Full statement: for all structurally valid versions a b (debian_wf: no NUL, no
    epoch, non-empty upstream part, non-empty revision after a hyphen), version_compare a b = Res (dpkg_compare a b), where
